@@ -184,6 +184,8 @@ def run(tier, replay_file=None):
     header_policy(chk, ex)
     # ---- (5) the request entry point routes at exactly the version the policy resolved
     entry_point(chk, ex)
+    # ---- (6) conflict at registration = a shared version, also when several ranges are already registered for the method and path
+    registration_conflicts(chk, ex)
 
     return chk.finish('one obligation per (function, range kind(s), execution path); non-trivial = distinct obligation name')
 
@@ -247,6 +249,29 @@ def header_policy(chk, ex):
             raise Inconclusive(f'witness mismatch header/{name}: {case} -> {r}')
         chk.samples.append({'header': case['header'], 'max': case['max'], 'native': r})
     if n_ok == 0: raise Inconclusive('header policy: Ok path unreachable')
+
+
+def registration_conflicts(chk, ex):
+    """HttpRouter::insert on one method and path with three version ranges, every order: the new registration is refused iff its range
+    shares a version with one already accepted (the loop over existing handlers, not only the pairwise predicate)"""
+    import itertools
+    from mirsym.runner import parallel
+    from props import router_run, routerlib as RL
+    saved = ex.models
+    ex.models = RL.ROUTER_MODELS + ex.models
+    try:
+        R = RL.Router(chk, ex)
+        tables = [[('GET', '/a', 'FromUntil'), ('GET', '/a', 'FromUntil'), ('GET', '/a', 'FromUntil')], [('GET', '/a', 'Until'), ('GET', '/a', 'FromUntil'), ('GET', '/a', 'From')],
+                  [('GET', '/a', 'From'), ('GET', '/a', 'FromUntil'), ('GET', '/a', 'All')]]
+        n0 = len(chk.obligations)
+        def task(chk, t):
+            ti, spec = t
+            router_run.TableRun(chk, ex, R, spec, 'C02', 1, f'registration/t{ti}').run(list(itertools.permutations(range(3))))
+        extras, incon = parallel(chk, list(enumerate(tables)), task)
+        if incon: raise Inconclusive(f'registration tables inconclusive: {incon[0]}')
+        if len(chk.obligations) - n0 < 30: raise Inconclusive('vacuity: too few registration obligations')
+    finally:
+        ex.models = saved
 
 
 def entry_point(chk, ex):
